@@ -2100,12 +2100,16 @@ impl Ord for OwnedTerm {
                     })
                 }
                 (OwnedTerm::Map(a), OwnedTerm::Map(b)) => a.len().cmp(&b.len()).then_with(|| {
-                    for ((k1, v1), (k2, v2)) in a.iter().zip(b.iter()) {
-                        match k1.cmp(k2) {
-                            Ordering::Equal => match v1.cmp(v2) {
-                                Ordering::Equal => continue,
-                                other => return other,
-                            },
+                    // maps of equal size: all keys in key order first, the values only then
+                    for (k1, k2) in a.keys().zip(b.keys()) {
+                        match compare_map_keys(k1, k2) {
+                            Ordering::Equal => continue,
+                            other => return other,
+                        }
+                    }
+                    for (v1, v2) in a.values().zip(b.values()) {
+                        match v1.cmp(v2) {
+                            Ordering::Equal => continue,
                             other => return other,
                         }
                     }
@@ -2704,6 +2708,21 @@ fn bit_parts(t: &OwnedTerm) -> Option<(&[u8], u8)> {
         OwnedTerm::BitBinary { bytes, bits } => Some((bytes, *bits)),
         _ => None,
     }
+}
+
+/// Map keys are matched exactly: an integer and a float of the same value are different
+/// keys, and the integer sorts first.
+fn compare_map_keys(a: &OwnedTerm, b: &OwnedTerm) -> Ordering {
+    a.cmp(b).then_with(|| {
+        match (
+            matches!(a, OwnedTerm::Float(_)),
+            matches!(b, OwnedTerm::Float(_)),
+        ) {
+            (false, true) => Ordering::Less,
+            (true, false) => Ordering::Greater,
+            _ => Ordering::Equal,
+        }
+    })
 }
 
 fn compare_term_lists(a: &[OwnedTerm], b: &[OwnedTerm]) -> Ordering {
